@@ -472,7 +472,9 @@ pub fn run(ctx: &Ctx, prop: &'static str) -> Outcome {
     let mut reps = vec![];
     for (i, m) in ms.iter().enumerate() {
         let deadline = ctx.elapsed() + (budget - ctx.elapsed()) / (ms.len() - i) as f64;
-        reps.push(search(ctx, m, prop, if quick { 6 } else { 10 }, deadline, true));
+        // quick: explicit, machine-independent depths (C16: 4; as C02's second half: 3)
+        let qd = if prop == "C16" { 4 } else { 3 };
+        reps.push(search(ctx, m, prop, if quick { qd } else { 10 }, deadline, true));
     }
     let named: Vec<(&str, &X2Report)> = ms.iter().map(|m| m.name).zip(reps.iter()).collect();
     fill_outcome(&mut out, &named);
